@@ -456,9 +456,13 @@ fn one_case(c: &mut Ctx, fam: &str, idx: u64) {
     // a silent peer under a trickle of requests (plain stream transport, real time): one request every half response timeout
     let trickle = transport == "stream" && idx % 60 == 1;
     let n = if trickle { rng.range(12, 18) } else { n };
+    // a connection that is used again after it has been idle (plain stream transport, real time): a few requests
+    // answered honestly, a pause shorter than the idle timeout, then ONE request the peer never answers
+    let reuse = transport == "stream" && idx % 60 == 21;
+    let n = if reuse { rng.range(2, 5) } else { n };
     // every fourth case the peer is honest: each request is answered once, correctly, in time, in any order
-    let clean = idx % 4 == 2 && !trickle;
-    let waves = if clean || trickle { 1 } else { rng.range(1, 3) };
+    let clean = idx % 4 == 2 && !trickle && !reuse;
+    let waves = if clean || trickle || reuse { 1 } else { rng.range(1, 3) };
     let has_stream = matches!(transport, "stream" | "multi_stream" | "dgram_stream" | "redundant");
     let names: Vec<Vec<u8>> = (0..n)
         .map(|k| {
@@ -477,6 +481,9 @@ fn one_case(c: &mut Ctx, fam: &str, idx: u64) {
         }
         if trickle {
             sc = vec![vec![], vec![], vec![]];
+        }
+        if reuse {
+            sc = if nm == names.last().unwrap() { vec![vec![], vec![], vec![]] } else { vec![vec![Act { delay_ms: rng.range(0, 300) as u64, kind: Kind::Good }]] };
         }
         if transport == "stream" {
             for a in sc.iter_mut().flat_map(|x| x.iter_mut()) {
@@ -502,8 +509,19 @@ fn one_case(c: &mut Ctx, fam: &str, idx: u64) {
             let conn = Arc::new(setup.conn);
             let budget = setup.budget;
             let mut handles = Vec::new();
+            let mut out = Vec::new();
             let per_wave = names2.len().div_ceil(waves);
             for (k, qn) in names2.iter().enumerate() {
+                if reuse && k + 1 == names2.len() {
+                    // everything so far has been answered: the connection falls idle; it is used again well inside its idle timeout
+                    for h in handles.drain(..) {
+                        let h: tokio::task::JoinHandle<Done> = h;
+                        if let Ok(d) = h.await {
+                            out.push(d);
+                        }
+                    }
+                    tokio::time::sleep(Duration::from_millis(rng2.range(50, 600) as u64)).await;
+                }
                 if k > 0 && k % per_wave == 0 {
                     // a pause longer than every timeout: slots are freed and reused afterwards
                     tokio::time::sleep(Duration::from_millis(rng2.range(3500, 12000) as u64 / scale)).await;
@@ -528,7 +546,6 @@ fn one_case(c: &mut Ctx, fam: &str, idx: u64) {
                     }
                 }));
             }
-            let mut out = Vec::new();
             for h in handles {
                 match h.await {
                     Ok(d) => out.push(d),
@@ -608,13 +625,17 @@ fn one_case(c: &mut Ctx, fam: &str, idx: u64) {
                 c.count("dgram_requests_within_tight_budget", 1);
             }
         }
+        if reuse && d.k + 1 == n && d.elapsed > resp_timeout * 3 + Duration::from_secs(1) {
+            c.violation("completes-late:stream:silent-peer-on-a-reused-connection", &format!("the one request sent over a stream connection that had fallen idle failed only after {:?}; the response timeout is {:?} and the peer never answered it", d.elapsed, resp_timeout), rp(c, json!({})));
+            return;
+        }
         if d.elapsed > allowed {
             c.violation(&format!("completes-late:{}", transport), &format!("request {} over {} completed after {:?}; the configured timeouts and retries add up to less than {:?}", d.k, transport, d.elapsed, budget), rp(c, json!({})));
             return;
         }
         match &d.result {
             Err(e) => {
-                if clean {
+                if clean || (reuse && d.k + 1 < n) {
                     c.violation(&format!("honest-peer-request-failed:{}", transport), &format!("request {} of {} concurrent ones over {} failed ({}) although the peer answered every request once, correctly and within {} ms", d.k, n, transport, e, 800 / scale), rp(c, json!({})));
                     return;
                 }
@@ -670,6 +691,9 @@ fn one_case(c: &mut Ctx, fam: &str, idx: u64) {
     if trickle {
         c.count("trickle_cases", 1);
     }
+    if reuse {
+        c.count("reused_idle_connection_cases", 1);
+    }
     if clean {
         c.count("honest_peer_cases", 1);
     }
@@ -690,7 +714,7 @@ pub fn run(c: &mut Ctx) {
         one_case(c, fam, idx);
     }
     if !c.replaying() {
-        for k in ["requests_answered", "requests_failed", "header_only_errors_delivered", "ids_used_for_more_than_one_request", "tc_fallbacks_completed", "peer_sent:wrong-id", "peer_sent:wrong-question", "peer_sent:foreign-answer", "peer_sent:close", "cases:stream", "cases:multi_stream", "cases:redundant", "cases:load_balancer"] {
+        for k in ["requests_answered", "requests_failed", "header_only_errors_delivered", "ids_used_for_more_than_one_request", "tc_fallbacks_completed", "peer_sent:wrong-id", "peer_sent:wrong-question", "peer_sent:foreign-answer", "peer_sent:close", "cases:stream", "reused_idle_connection_cases", "cases:multi_stream", "cases:redundant", "cases:load_balancer"] {
             c.floor(k, 3);
         }
     }
